@@ -36,11 +36,11 @@ Print Assumptions C08_from_float_faithful.
 (** integer arithmetic returns the true result, or falls back to floating point — never wraps *)
 Theorem C08_no_wrap : forall a b v,
   (vadd (VInt a) (VInt b) = Ok v ->
-     (v = VInt (a + b) /\ in_i64 (a + b) = true) \/ (in_i64 (a + b) = false /\ v = VFloat (fadd (f_of_Z a) (f_of_Z b)))) /\
+     (v = VInt (a + b) /\ in_i64 (a + b) = true) \/ (in_i64 (a + b) = false /\ v = from_float (fadd (f_of_Z a) (f_of_Z b)))) /\
   (vsub (VInt a) (VInt b) = Ok v ->
-     (v = VInt (a - b) /\ in_i64 (a - b) = true) \/ (in_i64 (a - b) = false /\ v = VFloat (fsub (f_of_Z a) (f_of_Z b)))) /\
+     (v = VInt (a - b) /\ in_i64 (a - b) = true) \/ (in_i64 (a - b) = false /\ v = from_float (fsub (f_of_Z a) (f_of_Z b)))) /\
   (vmul (VInt a) (VInt b) = Ok v ->
-     (v = VInt (a * b) /\ in_i64 (a * b) = true) \/ (in_i64 (a * b) = false /\ v = VFloat (fmul (f_of_Z a) (f_of_Z b)))).
+     (v = VInt (a * b) /\ in_i64 (a * b) = true) \/ (in_i64 (a * b) = false /\ v = from_float (fmul (f_of_Z a) (f_of_Z b)))).
 Proof.
   intros a b v. repeat split; cbn; intros H; injection H as H; now apply int_or_float_sound.
 Qed.
@@ -123,3 +123,15 @@ Theorem C08_decimal_overflow : forall (neg : bool) (m e10 : Z),
   (bpow radix2 1024 <= Rabs (dec_value neg m e10))%R /\ f_of_dec neg m e10 = S754_infinity neg.
 Proof. exact f_of_dec_guard_large. Qed.
 Print Assumptions C08_decimal_overflow.
+
+(** KF-48 - "never sign-stripped" is FALSE at exactly one double: the negative zero.  It is integral and in
+    range, so the normalisation makes it the integer 0 (which has no sign); 1/x is then +inf where IEEE says
+    -inf.  The witness replayed on the binary is the known finding; for every other double the integer
+    it becomes IS its value ([C08_from_float_faithful]: integral, [ftrunc_Z f = z]), sign included. *)
+Theorem C08_negative_zero_refuted :
+  exists f, f = S754_zero true /\ from_float f = VInt 0 /\
+            json_to_value (JFloat f) = VInt 0 /\
+            vdiv (VInt 1) (from_float f) = Ok (VFloat (S754_infinity false)) /\
+            vdiv (VInt 1) (VFloat f) = Ok (VFloat (S754_infinity true)).
+Proof. exists (S754_zero true). vm_compute. repeat split. Qed.
+Print Assumptions C08_negative_zero_refuted.
